@@ -811,6 +811,7 @@ func (m *Machine) Run(fn *ssa.Function, harness string, params map[string]int) (
 		m.epoch++
 	}()
 	m.paths, m.instrs = 0, 0
+	m.monWrites = m.monWrites[:0]
 	m.codec = nil
 	m.codecUnrecognised = 0
 	m.itemStart = time.Now()
